@@ -39,6 +39,7 @@ class Net(object):
     self.budget = 2000        # deliveries allowed until reset_budget(); exceeded -> overflow
     self.overflow = False
     self.delivered = 0
+    self.wave_no = 0          # counts step() calls: hops with the same "wave" entered their switches before the control plane ran
     self.on_deliver = None    # optional callback(dpid, port, data) before a frame enters a switch
 
   # ------------------------------------------------------------------ construction
@@ -136,7 +137,7 @@ class Net(object):
     if self.on_deliver is not None:
       self.on_deliver(dpid, port, data)
     hop = {"sw": dpid, "in_port": port, "data": data, "packet_in": False, "outs": [],
-           "t": self.world.clock.now}
+           "t": self.world.clock.now, "wave": self.wave_no}
     self._current.append(hop)
     if self.record:
       self.hops.append(hop)
@@ -149,6 +150,7 @@ class Net(object):
     self._current = []
     if not self.pending:
       return False
+    self.wave_no += 1
     n = 1 if self.mode == "seq" else len(self.pending)
     for _ in range(n):
       if self.delivered >= self.budget:
